@@ -76,6 +76,7 @@ def golden_env(tier):
 
 
 PROPS = {
+    "C04": sched_check("model_checking", ["the rpc client runs on a real mpx client whose dialer is replaced by a scheduler-controlled connector; the server side is the real rpc server handler on real server connections"]),
     "C19": sched_check("model_checking", ["the TCP dialer is replaced by a scheduler-controlled connector (dial outcomes are scripted or environment choices); time is virtual: timers fire only when no thread is enabled", "quiescence = no enabled thread (scheduler-observable)"]),
     "C09": sched_check("fault_enumeration", ["fault points are byte offsets of the session recorded under the default schedule; 'within bounded time' is decided as 'in every maximal execution within the step horizon' (virtual time): a waiter that is never released is a deadlock of the execution"]),
     "C11": sched_check("model_checking", ["oversized length prefixes are exercised up to 16 MiB; a 2^32-1 prefix (a 4 GiB allocation request per connection) is not executed in the harness"]),
